@@ -114,7 +114,9 @@ def propagate(data, d, medium_index=None, illum_wavelen=None, cfsp=0,
         d = d_old
         is_zero = d == 0
         n_zero = is_zero.sum()
-        res = xr.concat([data] * n_zero + [res], dim='z')
+        # (a 2-D image may come without a z coordinate to stack along)
+        zero = data if 'z' in data.coords else data.assign_coords(z=0)
+        res = xr.concat([zero] * n_zero + [res], dim='z')
         # return the slices in the order of the distances given
         order = np.empty(len(d), dtype=int)
         order[is_zero] = np.arange(n_zero)
